@@ -23,7 +23,7 @@ RULES = {
     'R11': 'the bound of the delivery loops covers every slot: the scan that stores conf_active_max looks at every target slot up to the last one (QB_LOG_TARGET_MAX - 1), so that an enabled target in the last slot is delivered to',
     'R7': 'names are compared whole: the matcher makes no bounded copy of a filter alternative; the dynamic call-site lookup compares the function name wherever it compares the file name',
 }
-FLOORS = {'R1': 6, 'R2': 4, 'R3': 9, 'R4': 10, 'R5': 7, 'W1': 1, 'R6': 4, 'R7': 3, 'R8': 3, 'R9': 5, 'R10': 3, 'R11': 1}
+FLOORS = {'R1': 6, 'R2': 4, 'R3': 9, 'R4': 10, 'R5': 7, 'W1': 1, 'R6': 5, 'R7': 3, 'R8': 3, 'R9': 5, 'R10': 3, 'R11': 1}
 
 
 def run(ctx):
@@ -519,6 +519,13 @@ def r6(ctx):
     tf = prog.fn('qb_log_target_free')
     clr = [ev for ev in list(tf.calls('qb_log_filter_ctl')) + list(tf.calls('qb_log_filter_ctl2')) + list(tf.calls(filter_core(prog).name)) if cval(unwrap(ev.args[1])) == prog.econst('QB_LOG_FILTER_CLEAR_ALL')]
     ok = bool(clr) and all(cval(unwrap(ev.args[3])) != 0 or unwrap(ev.args[3]).get('k') == 'str' for ev in clr)
+    UNUSED = prog.econst('QB_LOG_STATE_UNUSED')
+    gone = [ev for ev in tf.events('CALL') if ev.callee == '_log_target_state_set' and len(ev.args) >= 2 and cval(unwrap(ev.args[1])) == UNUSED] + \
+           [st for st in tf.events('STORE') if last_field(st.lhs) == ('qb_log_target', 'state') and cval(unwrap(st.rhs)) == UNUSED]
+    early = [g_ for g_ in gone for c_ in clr if tf.may_follow(g_, c_)]
+    ctx.check('R6', 'target_free-clears-filters-while-the-slot-is-in-use', bool(clr) and not early, early[0] if early else (clr[0] if clr else tf),
+              'the filters are cleared before the slot is marked unused',
+              'qb_log_target_free marks the slot UNUSED before it clears the filters: the filter core refuses operations on an unused slot (-EBADF, ignored here), so the closed target\'s filters and call-site bits stay and the next target opened in the slot gets messages none of its own filters select')
     ctx.check('R6', 'target_free-clears-filters', ok, clr[0] if clr else tf,
               'closing a target clears its filters with a text qb_log_filter_ctl2 accepts',
               'qb_log_target_free asks for CLEAR_ALL with a NULL text, which qb_log_filter_ctl2 refuses: the closed target\'s filters and call-site bits are inherited by the next target opened in the slot')
